@@ -44,7 +44,7 @@ def scenarios(tier):
                 n += 1
     for np_ in ([2, 3] if tier == "quick" else [2, 3, 4, 5]):
         for fmt in [1, 2, 5]:
-            for writer in range(1, np_):
+            for writer, two in [(w, t) for w in range(1, np_) for t in (False, True)]:
                 cm = ["CLOBBER"] + ([filegen.FMT[fmt]] if filegen.FMT[fmt] else [])
                 W = 8
                 st = [{"op": "create", "path": "a.nc", "cmode": cm, "fmtno": fmt, "obs": ["exists"]},
@@ -59,9 +59,12 @@ def scenarios(tier):
                        {"op": "set_fill", "fill": "FILL", "obs": ["schema"]},
                        {"op": "def_var", "name": "r2", "norm": "r2", "xtype": "int", "dims": [0, 1], "obs": ["schema"]},
                        {"op": "put_att", "v": 1, "name": "_FillValue", "norm": "_FillValue", "xtype": "int", "itype": "int", "vals": [-7], "n": 1, "obs": ["schema"]},
+                       ] + ([{"op": "def_var", "name": "r3", "norm": "r3", "xtype": "short", "dims": [0, 1], "obs": ["schema"]}] if two else []) + [
                        {"op": "def_var", "name": "f2", "norm": "f2", "xtype": "short", "dims": [1], "obs": ["schema"]},
                        {"op": "enddef"}]
-                for r in range(3):
+                for r in range(3):   # (two: TWO record variables with different fill patterns join the existing records in one redefinition)
+                    if two:
+                        st.append({"op": "get", "v": 2, "mode": "coll", "itype": "short", "rec": r, "form": "vara", "n": W, "start": [r, 0], "count": [1, W], "obs": []})
                     st.append({"op": "get", "v": 1, "mode": "coll", "itype": "int", "rec": r, "form": "vara", "n": W, "start": [r, 0], "count": [1, W], "obs": []})
                     st.append({"op": "get", "v": 0, "mode": "coll", "itype": "int", "rec": r, "form": "vara", "n": W, "start": [r, 0], "count": [1, W], "obs": []})
                 st.append({"op": "close"})
